@@ -41,6 +41,21 @@ func (s *JavaRefactorListener) EnterClassDeclaration(ctx *ClassDeclarationContex
 	node.Name = ctx.Identifier().GetText()
 }
 
+func (s *JavaRefactorListener) EnterEnumDeclaration(ctx *EnumDeclarationContext) {
+	node.Type = "Enum"
+	node.Name = ctx.Identifier().GetText()
+}
+
+func (s *JavaRefactorListener) EnterRecordDeclaration(ctx *RecordDeclarationContext) {
+	node.Type = "Record"
+	node.Name = ctx.Identifier().GetText()
+}
+
+func (s *JavaRefactorListener) EnterAnnotationTypeDeclaration(ctx *AnnotationTypeDeclarationContext) {
+	node.Type = "Annotation"
+	node.Name = ctx.Identifier().GetText()
+}
+
 func (s *JavaRefactorListener) EnterQualifiedNameList(ctx *QualifiedNameListContext) {
 	for _, qualified := range ctx.AllQualifiedName() {
 		startLine := ctx.GetStart().GetLine()
